@@ -1509,7 +1509,7 @@ request_parse(u8 *packet, int length, struct evdns_server_port *port,
 	GET16(additional);
 
 	if (flags & _QR_MASK) return -1; /* Must not be an answer. */
-	flags &= (_RD_MASK|_CD_MASK); /* Only RD and CD get preserved. */
+	flags &= (_OP_MASK|_RD_MASK|_CD_MASK); /* Only OPCODE, RD and CD get preserved. */
 
 	server_req = mm_malloc(sizeof(struct server_request));
 	if (server_req == NULL) return -1;
